@@ -37,6 +37,9 @@ class _VFile:
 
     def read(self, offset, length):
         self.reads += 1
+        if getattr(self, "hit_eof", False):
+            # the file has ended: whatever the requested length says, asking again can only spin (2^40 / block size times)
+            raise NonTermination("another read was issued after a read had returned nothing (end of file)")
         if self.reads > self.ctx.max_reads:
             self.ctx.cut("more than %d reads for one request (long ranges)" % self.ctx.max_reads)
         if self.ctx.symbolic:
@@ -46,11 +49,13 @@ class _VFile:
             if zero and self.last is not None and self.last[0].eq(key[0]) and self.last[1].eq(key[1]):
                 raise NonTermination("the same empty read was issued twice: the loop makes no progress")
             self.last = key if zero else None
+            self.hit_eof = zero
             return SRope.opaque(k, ("file", offset))
         k = max(0, min(length, self.size - offset))
         if k == 0 and self.last == (offset, length):
             raise NonTermination("the same empty read was issued twice: the loop makes no progress")
         self.last = (offset, length) if k == 0 else None
+        self.hit_eof = k == 0
         return _content(offset, offset + k)
 
     def stat(self):
